@@ -105,11 +105,37 @@ theorem client_payloads_at_most_once (a : AEAD) {c c' : NetcodeClient} {ops : Li
   have hnd' := hsub.nodup hnd
   rw [protectedSeqs_append, protectedSeqs_reverse, protectedSeqs_asSurf, List.nodup_append] at hnd'
   obtain ⟨n1, n2, n3⟩ := hnd'
-  refine ⟨List.nodup_reverse.mp n1, ?_, h4, ?_, fun s hs => C04.accepted_only_if_presented hs⟩
+  refine ⟨(List.pairwise_reverse.mp n1).imp (fun h => Ne.symm h), ?_, h4, ?_, fun s hs => C04.accepted_only_if_presented hs⟩
   · intro s hs hm
     exact n3 s (List.mem_reverse.mpr hs) s hm rfl
   · rw [← h2]
     exact C04.run_window_inv a _ _ _
+
+/-- **… and is rejected for ever after**: at the end of the run the stored window reports the sequence number of every payload
+    surfaced along the run as already received — so (`C04.client_replay_rejected`) no datagram carrying it, the accepted one, a
+    copy, or a modification that keeps the sequence bytes, surfaces a payload in the state reached. -/
+theorem client_surfaced_rejected_after (a : AEAD) {c c' : NetcodeClient} {ops : List Cl.COp} {ps : List (Bytes × Bytes)}
+    (pre : List Bytes)
+    (hw : c.replayProtection = (Recv.run a c.connectToken.protocolId c.connectToken.serverToClientKey pre).window)
+    (h : prun a c ops = some (c', ps)) :
+    ∀ s ∈ surfacedSeqs ps, c'.replayProtection.alreadyReceived s = true := by
+  obtain ⟨h1, h2, h3, h4⟩ := prun_recv ops _ h hw.symm
+  rw [← run_append] at h2 h3
+  intro s hs
+  have hsub : (protectedSeqs ((ps.map asSurf).reverse ++
+      (Recv.run a c.connectToken.protocolId c.connectToken.serverToClientKey pre).surfaced)).Sublist
+      (protectedSeqs (Recv.run a c.connectToken.protocolId c.connectToken.serverToClientKey (pre ++ recvBufs ops)).surfaced) := by
+    unfold protectedSeqs
+    exact (h3.filter _).map _
+  have hm := hsub.subset (show s ∈ _ by
+    rw [protectedSeqs_append, protectedSeqs_reverse, protectedSeqs_asSurf]
+    exact List.mem_append_left _ (List.mem_reverse.mpr hs))
+  have hacc := (Recv.good_run a c.connectToken.protocolId c.connectToken.serverToClientKey (pre ++ recvBufs ops)).sub s hm
+  have hne : s ≠ 2 ^ 64 - 1 := by
+    simp only [surfacedSeqs, List.mem_filter, decide_eq_true_eq] at hs
+    exact hs.2
+  rw [← h2]
+  exact C04.no_reaccept (C04.run_window_inv a _ _ _) hacc hne
 
 /-- **(3) … from `NetcodeClient::new`**: a client created by `new(now, Secure { token })` and driven by ANY API calls surfaces
     payloads from pairwise distinct sequence numbers only, each the plaintext its datagram opens to under the token's
@@ -202,7 +228,7 @@ example : ∃ c c' ps, NetcodeClient.new 0 tokenA = .ok c ∧ prun NS.Ex.a c exO
       rw [hp] at hr
       simp only [Option.map_some, Option.some.injEq] at hr
       obtain ⟨h1, -, -, h4, -⟩ := client_new_payloads_at_most_once NS.Ex.a hn hp
-      refine ⟨c, c', ps, rfl, rfl, ?_, ?_, h1, h4⟩
+      refine ⟨c, c', ps, rfl, hp, ?_, ?_, h1, h4⟩
       · rw [hr]; rfl
       · rw [hr]; decide +kernel
   | err e => rw [hn] at hr; cases hr
